@@ -368,6 +368,23 @@ theorem no_residue (v : Variant) :
 
 end run
 
+/-! ## path arguments -/
+
+/-- "reports exactly what happened" includes *where*: the JobOutput is written to the output directory as the caller
+named it — resolved against the directory the runner was started in, never against the private scratch directory —
+so a relative and an absolute spelling of the same directory give the same file, whatever the scratch directory is. -/
+theorem output_location_independent (cwd0 td td' : List String) (out : PathArg) (stem : String) :
+    outputLocation false cwd0 td out stem = outputLocation false cwd0 td' out stem ∧
+    outputLocation false cwd0 td (.rel p) stem = outputLocation false cwd0 td (.abs (cwd0 ++ p)) stem := by
+  simp [outputLocation, PathArg.resolve]
+
+/-- a runner that dumps while still inside its private directory puts a relative output directory inside the
+directory that is removed afterwards (absolute paths are unaffected) -/
+theorem output_location_counterexample :
+    outputLocation true ["w"] ["w", "scr", "j__x"] (.rel ["out"]) "job" ≠ outputLocation false ["w"] ["w", "scr", "j__x"] (.rel ["out"]) "job" ∧
+    outputLocation true ["w"] ["w", "scr", "j__x"] (.abs ["w", "out"]) "job" = outputLocation false ["w"] ["w", "scr", "j__x"] (.abs ["w", "out"]) "job" := by
+  decide
+
 /-! ## a concrete job (non-vacuity) and the shipped behaviour -/
 
 def demoInput : JobInput :=
